@@ -14,20 +14,29 @@ const F8: &str = "duplicate-field-names";
 const F9: &str = "zero-width-seq-elements";
 
 fn walk(s: &ST, f: &mut dyn FnMut(&ST)) {
+    walk_k(s, true, f)
+}
+/// the nodes the dynamic codec ever walks: a map's key schema is only ever compared with String
+fn walk_vals(s: &ST, f: &mut dyn FnMut(&ST)) {
+    walk_k(s, false, f)
+}
+fn walk_k(s: &ST, keys: bool, f: &mut dyn FnMut(&ST)) {
     f(s);
     let mut data = |d: &SD, f: &mut dyn FnMut(&ST)| match d {
         SD::Unit => {}
-        SD::Newtype(t) => walk(t, f),
-        SD::Tuple(ts) => ts.iter().for_each(|t| walk(t, f)),
-        SD::Struct(fs) => fs.iter().for_each(|(_, t)| walk(t, f)),
+        SD::Newtype(t) => walk_k(t, keys, f),
+        SD::Tuple(ts) => ts.iter().for_each(|t| walk_k(t, keys, f)),
+        SD::Struct(fs) => fs.iter().for_each(|(_, t)| walk_k(t, keys, f)),
     };
     match s {
         ST::P(_) => {}
-        ST::Opt(t) | ST::Seq(t) => walk(t, f),
-        ST::Tup(ts) => ts.iter().for_each(|t| walk(t, f)),
+        ST::Opt(t) | ST::Seq(t) => walk_k(t, keys, f),
+        ST::Tup(ts) => ts.iter().for_each(|t| walk_k(t, keys, f)),
         ST::Map(k, v) => {
-            walk(k, f);
-            walk(v, f)
+            if keys {
+                walk_k(k, keys, f);
+            }
+            walk_k(v, keys, f)
         }
         ST::Struct(_, d) => data(d, f),
         ST::Enum(_, vs) => vs.iter().for_each(|(_, d)| data(d, f)),
@@ -61,7 +70,7 @@ fn has_zero_width_seq(s: &ST) -> bool {
 }
 fn has_option_nullable(s: &ST) -> bool {
     let mut found = false;
-    walk(s, &mut |n| {
+    walk_vals(s, &mut |n| {
         if let ST::Opt(t) = n {
             if nullable(t) {
                 found = true;
@@ -81,7 +90,7 @@ fn has_dup_fields(s: &ST) -> bool {
         }
     }
     let mut found = false;
-    walk(s, &mut |n| match n {
+    walk_vals(s, &mut |n| match n {
         ST::Struct(_, d) => found |= dup(d),
         ST::Enum(_, vs) => found |= vs.iter().any(|(_, d)| dup(d)),
         _ => {}
@@ -157,6 +166,10 @@ fn encode(o: &mut Out, st: &ST, owned: &postcard_schema::schema::owned::OwnedDat
     o.bump(&format!("ser:{}:{}", class, if obs.starts_with("ok") { "ok" } else { &obs }));
     if ss.len() + js.len() < 20000 {
         o.case("dynser", &[ss, &js], &obs);
+        // the scope of the re-encode theorem: every serde_json value is well formed in its sense,
+        // and a schema is outside it exactly when it is in one of the two known classes
+        let scope = !(has_dup_fields(st) || has_option_nullable(st));
+        o.case("reencscope", &[ss, &js], &format!("scope={} wf=1", scope as u8));
     }
     let inp = format!("schema {} json {}", ss, js);
     match got {
